@@ -113,7 +113,7 @@ def _angle(rng, i):
     return float(rng.choice([-1, 1]) * 10 ** rng.uniform(-12, 0))
 
 
-INV_STRATA = gen.ROT_STRATA + ["gimbal_0_near_axisangle", "gimbal_pi_near_axisangle", "gimbal_0_noisy", "near_180_fine"]
+INV_STRATA = gen.ROT_STRATA + ["gimbal_0_near_axisangle", "gimbal_pi_near_axisangle", "gimbal_0_noisy", "near_180_fine", "euler_near_wrap"]
 
 
 def workload(ctx):
@@ -148,6 +148,15 @@ def workload(ctx):
             U = (Q @ oracle.Rz(rng.uniform(0, TWO_PI))) @ Q.T
             U = Q.T @ U @ Q
             info = {"delta": 0.0}
+        elif s == "euler_near_wrap":
+            # phi1 and/or phi2 a hair below 2 pi or above 0 (the ends of the range the answer has to lie in)
+            ang = [float(x) for x in rng.uniform(0, TWO_PI, 3)]
+            ang[1] = float(rng.uniform(0.05, math.pi - 0.05))
+            for j in ((0,), (2,), (0, 2))[int(rng.integers(3))]:
+                d = 10 ** rng.uniform(-9, -2)
+                ang[j] = float(TWO_PI - d if rng.random() < 0.6 else d)
+            U = oracle.euler(*ang)
+            info = {"delta": None}
         else:  # near_180_fine: delta down to 2e-7 rad (1.1e-5 deg)
             d = 10 ** rng.uniform(-6.7, -1)
             U = oracle.axis_angle(rng.normal(size=3), math.pi - d)
